@@ -95,6 +95,23 @@ def inject(rng, d):
         return None
     keys = [k for k in o if not k.startswith("__") and k in props and not isinstance(o[k], (dict,)) and not (isinstance(o[k], list) and o[k] and isinstance(o[k][0], dict))]
     r = rng.random()
+    lists = [k for k in keys if isinstance(o[k], (list, tuple)) and len(o[k]) > 0]
+    if lists and rng.random() < .35:
+        # a fault INSIDE a list-valued keyword: one item of a flat list (SIZE, EXTENT, COLOR …), or one coordinate of one pair of
+        # a list of pairs (POINTS, PATTERN): the error path then ends in one or in two indexes
+        k = rng.choice(lists)
+        v = [list(x) if isinstance(x, (list, tuple)) else x for x in o[k]]
+        i = rng.randrange(len(v))
+        if isinstance(v[i], list) and v[i]:
+            if v[i] and isinstance(v[i][0], list):
+                return None
+            v[i][rng.randrange(len(v[i]))] = "four"
+            kind = "nested-item"
+        else:
+            v[i] = "zz"
+            kind = "item"
+        o[k] = v
+        return (f"{kind} fault at {'/'.join(map(str, path + (k, i)))}", f"ERROR: Invalid value in {k.upper()}")
     if keys and r < .6:
         k = rng.choice(keys)
         node, _ = gen.deref(props[k])
